@@ -88,10 +88,11 @@ func (d *Decoder) decodeObject(o Object, ignoreCRC bool) {
 	vtyp := value.Type()
 	var optionalBitSet uint32
 	var flagsetIndex = -1
-	if haveFlag(value.Interface()) {
-		// getting new cause we need idempotent response
-		indexGetter, ok := reflect.New(vtyp).Interface().(FlagIndexGetter)
-		if !ok {
+	// getting new cause we need idempotent response
+	indexGetter, hasFlagIndex := reflect.New(vtyp).Interface().(FlagIndexGetter)
+	// flags word exists in serialized object if type says where it is, even when no one field depends on it
+	if hasFlagIndex || haveFlag(value.Interface()) {
+		if !hasFlagIndex {
 			panic("type " + value.Type().String() + " has type bit flag tags, but doesn't inplement tl.FlagIndexGetter")
 		}
 		flagsetIndex = indexGetter.FlagIndex()
